@@ -54,8 +54,9 @@ class Eng(Interp):
     def sym_obj(self, name, cls):
         return Obj(z3.Const(name, V), cls)
 
-    def sym_list(self, name, cls=None, kind='list'):
-        """symbolic list of arbitrary length whose elements are objects of class cls (or opaque values)"""
+    def sym_list(self, name, cls=None, kind='list', etag=None):
+        """symbolic list of arbitrary length whose elements are objects of class cls (or opaque values; etag='scalar':
+        hashable scalars compared by value)"""
         term = z3.Const(name, V)
         n = z3.Int(f'len_{name}')
         self.fact(n >= 0)
@@ -63,7 +64,7 @@ class Eng(Interp):
 
         def elem(i):
             if cls is None:
-                return self.app('getitem', [holder, SV(i, 'int')])
+                return self.app('getitem', [holder, SV(i, 'int')], tag=etag)
             return self.app('getitem', [holder, SV(i, 'int')], 'obj', cls=cls)
         return SeqV(length=n, elem=elem, kind=kind, term=term)
 
